@@ -89,6 +89,24 @@ def _state(rng, odd):
     return agents, host, replicas, graph
 
 
+def _rich_state(rng):
+    """well-formed states for the whole-repair-DCOP check: several computations lost at once, each
+    with 1-3 surviving replica holders, dense neighbourhoods (orphaned neighbours)"""
+    agents = list(AGENTS)
+    comps = COMPS[:rng.randint(3, 6)]
+    rng.shuffle(comps)
+    dep = rng.sample(agents, rng.choice([1, 2, 2, 3]))
+    host = [[c, rng.choice(dep) if rng.random() < 0.6 else rng.choice(agents)] for c in comps]
+    hostd = dict(host)
+    replicas = {c: sorted(rng.sample([a for a in agents if a != hostd[c]], rng.randint(1, 3))) for c in comps}
+    graph = []
+    for c in comps:
+        ns = [n for n in comps if n != c and rng.random() < 0.7]
+        rng.shuffle(ns)
+        graph.append([c, ns])
+    return agents, host, replicas, graph, dep
+
+
 def _departed(rng, agents):
     k = rng.choice([1, 1, 1, 2, 2, 3, 0])
     dep = rng.sample(agents, min(k, len(agents)))
@@ -157,6 +175,14 @@ def gen(rng, n, tier):
         r = rng.random()
         if r < 0.3:
             cases.append(_synthetic(rng))
+            continue
+        if r >= 0.55 and rng.random() < 0.3:
+            agents, host, replicas, graph, dep = _rich_state(rng)
+            c = dict(agents=agents, host=host, replicas=replicas, graph=graph, extra_orph=[],
+                     kind="flow", departed=dep, seed=rng.randint(0, 10 ** 9))
+            c.update(_costs(rng, agents, [x for x, _ in host]))
+            c["own_pick"] = rng.randint(0, 10)
+            cases.append(c)
             continue
         odd = rng.random() < 0.06
         agents, host, replicas, graph = _state(rng, odd)
@@ -369,13 +395,13 @@ def _global_obs(c, cands, cg, d, rng):
     if len(set(names)) != len(names):
         return dict(error="name-collision")
     n = len(keys)
-    if n <= 7:
+    if n <= 6:
         asgs = [list(t) for t in itertools.product([0, 1], repeat=n)]
     else:
-        asgs = [[rng.randint(0, 1) for _ in keys] for _ in range(40)]
+        asgs = [[rng.randint(0, 1) for _ in keys] for _ in range(24)]
     # assignments selecting exactly one candidate per orphaned computation (valid unless over capacity)
     comps = sorted({k[0] for k in keys})
-    for _ in range(24 if n > 7 else 0):
+    for _ in range(16 if n > 6 else 0):
         pick = {x: rng.choice([k[1] for k in keys if k[0] == x]) for x in comps}
         asgs.append([1 if pick[k[0]] == k[1] else 0 for k in keys])
 
@@ -829,7 +855,8 @@ def _setup_term(o):
 
 
 def _global_term(c, g):
-    rows = [r for r in c["comm"]]
+    orph = {k[0] for k in g["bv"]}
+    rows = [r for r in c["comm"] if r[0] in orph]        # only candidate computations are looked up
     evals = q.lst(["(%s, %s, %s)" % (q.zlist(v), _res(h, q.z), _res(s_, q.z)) for v, h, s_ in g["evals"]])
     return "AGlobal (mkGlobal %s %s %s %s %s %s %s %s %s)" % (
         q.slist(g["agents"]), _pairs(g["ri"], q.s, _ri_term), q.z(c["remaining"]),
